@@ -130,13 +130,14 @@ func solveOne(o *Obligation, timeoutSec int, all bool) {
 				v int
 				r SolverResult
 			}
-			n := 1
+			variants := []int{4}
 			if o.KeepTag != "" {
-				n = 4
+				variants = []int{1, 2, 3, 4}
 			}
+			n := 1 + len(variants)
 			ch := make(chan vr, n)
 			go func() { ch <- vr{0, RunSolversCtx(ctx, q, false, timeoutSec, false, nil)} }()
-			for v := 1; v < n; v++ {
+			for _, v := range variants {
 				go func(v int) { ch <- vr{v, RunSolversCtx(ctx, o.unit.QueryVariant(o, v), false, timeoutSec, false, nil)} }(v)
 			}
 			var full *SolverResult
